@@ -32,24 +32,24 @@ CLAIMS = {
             TECH_V, "§3 C02"),
     "C03": ("model_checking",
             "update_route_schedule (schedules, totals, latest-arrival and waiting states) equals an independent forward/backward replay from the bare tour, bit-equal, from any cache content - "
-            "bounded (<= 2 job activities, integer-valued times). Writer/rounding/place-tag clauses are not decided." + GLUE,
-            "Bounded Kani harnesses (stated bounds); stub environment; solution_writer::create_tour, get_total_cost, Statistic sums not under contract.",
+            "bounded (<= 2 job activities, integer-valued times). total cost == sum over tours of vehicle and driver parts (U03b, bounded); reported Statistic sums add field by field (U03c, Verus). Writer/rounding/place-tag clauses are not decided." + GLUE,
+            "Bounded Kani harnesses (stated bounds); stub environment; get_total_cost (U03b, bounded) and the Statistic sum (U03c, Verus) are under contract, solution_writer::create_tour is NOT.",
             TECH_K + " (bounded)", "§3 C03"),
     "C04": ("proof",
             "Claimed for the primitives search steps are composed of, plus one operator kernel: departure-time rescheduling (try_advance_departure_time keeps every activity of a feasible tour inside its window; bounded, U04a). Otherwise: the invariant (tour well-formed, job set == jobs of activities, locked jobs untouched, a removed job re-queued exactly once) is inductive "
-            "for try_remove_job and every Tour mutator (Verus, unbounded, all histories). The ~40 operator files themselves are glue: a mutation that makes an operator bypass these primitives is not detected.",
-            "Trusted: Verus/Z3; see C02. Operators (ruin/recreate/local/decompose/redistribute/infeasible/lkh search), insertion application and deep copies are NOT under contract.",
+            "for try_remove_job and every Tour mutator (Verus, unbounded, all histories). Hand-over protocol of RedistributeSearch::search and RuinAndRecreate::search over ghost state (U05e, complete relative to assumed callee contracts): returned under the original problem, aggregates recomputed after the last change of tours, parent untouched. LegSelection (exhaustive and the stochastic branch's input) offers a later task of a multi-job only legs behind the previous one (U06b). The other ~40 operator files are glue: a mutation that makes an operator bypass these primitives is not detected.",
+            "Trusted: Verus/Z3; see C02. Operator bodies (ruin/recreate/local/decompose/infeasible/lkh search) and deep copies are NOT under contract; redistribute and ruin-and-recreate only for their hand-over tail.",
             TECH_V, "§3 C04"),
     "C05": ("model_checking",
             "Stale-flag protocol: every mutable RouteContext accessor marks the context stale (Verus, unbounded); accept_route_state clears and recomputes exactly the stale routes, runs every hook once in order; "
-            "accept_solution_state restarts until a full pass is change-free and leaves all routes fresh (bounded); schedule/statistics recomputation is independent of the previous cache content (bounded <= 2 activities); job-group tags of every route equal recomputation from its tour after every hand-over and insertion, whatever the stale flags (bounded, U05d)." + GLUE,
+            "accept_solution_state restarts until a full pass is change-free and leaves all routes fresh (bounded); schedule/statistics recomputation is independent of the previous cache content (bounded <= 2 activities); job-group tags of every route equal recomputation from its tour after every hand-over and insertion, whatever the stale flags (bounded, U05d); RedistributeSearch/RuinAndRecreate hand over aggregates computed after their last change of the tours, restore() computes aggregates then drops empty tours (ghost-state protocol proof, U05e)." + GLUE,
             "Bounded Kani harnesses + Verus accessors; of the individual features' accept_* hooks groups (U05d), compatibility (U01g) and capacity states (U05c) are under contract; tour order, reloads, limits, fast service are NOT.",
             TECH_M, "§3 C05"),
     "C06": ("proof",
             "Soundness: time-window gate and capacity gate accept only legs whose step simulation is feasible (complete Kani proofs, see C01). Completeness: on the exact (integer-valued) domain a feasible leg in a consistent tour "
             "is accepted mid-tour/closed-tour, and at the open end under the stricter premise the code implements; the open-end converse as the property states it is KNOWN FINDING F5. "
-            "Capacity gate: everything fits => accepted (complete)." + GLUE,
-            "Trusted: as C01; evaluator plumbing (analyze_insertion_in_route_leg, eval_multi, LegSelection) is NOT under contract; machine floats: converse demanded on integer-valued inputs only.",
+            "Capacity gate: everything fits => accepted (complete). Plumbing: analyze_insertion_in_route_leg tries every place of the job and keeps the cheapest feasible one (bounded, U06a); exhaustive leg selection offers every leg from `skip` on once, in order, and the stochastic branch hands exactly those legs to its sampler (bounded, U06b); eval_single/MultiContext keep the better alternative (Verus, U06c/U06d)." + GLUE,
+            "Trusted: as C01; of the evaluator plumbing analyze_insertion_in_route_leg (U06a), LegSelection (U06b), eval_single (U06c) and MultiContext (U06d) are under contract, eval_multi's permutation loop and sample_search are NOT; machine floats: converse demanded on integer-valued inputs only.",
             TECH_K, "§3 C06"),
     "C07": ("model_checking",
             "Iterative::run executes exactly min(limit, k) generations for MaxGeneration(limit) and a quota that fires at an arbitrary poll index k, returns Ok with the ranked prefix (bounded limit <= 3, k <= 4); "
@@ -98,8 +98,8 @@ CLAIMS = {
             "Trusted: Kani/CBMC; Network::compact passes (3,4); network shape contains the origin; contract_graph/Network::remap glue and all training code unverified.",
             TECH_K + " (loop-free, complete)", "§3 C19"),
     "C20": ("model_checking",
-            "Distance objective: estimate_leg's quoted delta equals total_distance(after) - total_distance(before) exactly, for empty tour (vehicle ending at a different location than it starts), first/last/open-end leg (bounded <= 1 existing job activity, integer-valued matrix); unassigned-jobs and number-of-tours objectives: quote == change (bounded); lemma L20 (telescoping, any tour length).",
-            "Bounded Kani harnesses; total-value objective and CostObjective not under contract.",
+            "Distance objective: estimate_leg's quoted delta equals total_distance(after) - total_distance(before) exactly, for empty tour (vehicle ending at a different location than it starts), first/last/open-end leg (bounded <= 1 existing job activity, integer-valued matrix); unassigned-jobs and number-of-tours objectives: quote == change (bounded); combined cost objective (estimate_route + estimate_activity, TransportCost::cost, ActivityCost::cost vs get_total_cost after update_route_schedule) with equal per-time rates and no waiting: quote == change (bounded <= 1 existing job activity, asymmetric matrix, U20c); lemma L20 (telescoping, any tour length).",
+            "Bounded Kani harnesses; total-value objective, the waiting-time correction of CostObjective and work-balance style objectives are not under contract.",
             TECH_K + " (bounded)", "§3 C20"),
 }
 
